@@ -428,6 +428,119 @@ theorem run_correct (m : Mode) (units : List (UnitHdr × List Entry)) (ras : Lis
     simp only [List.contains_iff_mem, List.mem_append]
     exact Or.inr ((hflat _).2 hpar)
 
+/-! ## split DWARF: the first unit of the split section is the one converted -/
+
+/-- **`split_converts_first_unit`** — split DWARF with ANY number of units in the split section: the
+filter walks them all, so reachability ranges over the whole section, and the filtered split
+conversion (`new_split` + `convert_split_with_filter`) converts the FIRST unit: when it succeeds
+its output is exactly the reachable entries of the first unit, in read order, each with its input
+parent — which is the output of the unfiltered `convert_split` (all entries of the first unit)
+restricted to the reachable offsets — whatever other units follow. -/
+theorem split_converts_first_unit (m : Mode) (ue : UnitHdr × List Entry) (rest : List (UnitHdr × List Entry))
+    (ras : List (List AttrRef)) (parts : List (List Off)) (us : List (List (Off × Option Off)))
+    (h : runSplit m (ue :: rest) ras = .converted parts us)
+    (hd : Distinct (ue :: rest))
+    (hdepth : ∀ e, e ∈ ue.2 → 0 < e.depth)
+    (hroot : ∀ e, e ∈ ue.2 → ue.1.base + e.off ≠ ue.1.rootOff) :
+    ∃ out : List Off, parts = [out] ∧
+      (∀ x, x ∈ out ↔ Closure (records (ue :: rest)) (rootReqs (ue :: rest) ras) x) ∧
+      us = [filterLinks (ue.1.rootOff :: out) ue.1 [] ue.2] ∧
+      (∀ offs usAll, runSplitUnfiltered (ue :: rest) ras = .converted offs usAll →
+        us = usAll.map (fun l => l.filter (fun p => out.contains p.1))) := by
+  simp only [runSplit] at h
+  cases hb : buildDeps m (ue :: rest) ras with
+  | ok d =>
+    rw [hb] at h
+    simp only at h
+    cases hr : getReachable d with
+    | ok out =>
+      rw [hr] at h
+      simp only at h
+      cases hc : convertUnits (ue.1.rootOff :: out) [ue] ras with
+      | error e => rw [hc] at h; cases h
+      | ok us' =>
+        rw [hc] at h
+        simp only at h
+        split at h
+        · simp only [Outcome.converted.injEq] at h
+          obtain ⟨hp, hus⟩ := h
+          subst hus
+          have hE := closure_exact m (ue :: rest) ras d out hb hr hd
+          obtain ⟨_, C2, _, _, _, _⟩ := closure_props m (ue :: rest) ras d out hb hr hd
+          -- membership in the id table for offsets of first-unit entries
+          have hids : ∀ e, e ∈ ue.2 →
+              ((ue.1.rootOff :: out).contains (ue.1.base + e.off) = out.contains (ue.1.base + e.off)) := by
+            intro e he
+            have := hroot e he
+            simp [this]
+          have hwp : ∀ ep, ep ∈ withParents [] ue.2 → ep.1 ∈ ue.2 := by
+            intro ep hep
+            have := withParents_fst ue.2 []
+            rw [← this]; exact List.mem_map_of_mem hep
+          have hlinks : us' = [filterLinks (ue.1.rootOff :: out) ue.1 [] ue.2] := by
+            have := convertUnits_links (ue.1.rootOff :: out) [ue] ras us' ?_ hc
+            · simpa using this
+            · intro ue' hue'
+              simp only [List.mem_singleton] at hue'
+              subst hue'
+              refine ⟨hdepth, ?_⟩
+              intro ep hep hin p hp'
+              have hrec : (⟨ue'.1, ep.1, ep.2⟩ : Rec) ∈ records (ue' :: rest) := by
+                simp only [records, List.flatMap_cons, List.mem_append]
+                left
+                simp only [unitRecs, List.mem_map]; exact ⟨ep, hep, rfl⟩
+              rw [hids ep.1 (hwp ep hep)] at hin
+              have hkept : ue'.1.base + ep.1.off ∈ out := by simpa using hin
+              have hpar : ue'.1.base + p.off ∈ out :=
+                C2 ⟨ue'.1, ep.1, ep.2⟩ hrec hkept (ue'.1.base + p.off) (by simp only [Rec.parentOff, hp'])
+              simp only [List.contains_cons, Bool.or_eq_true]
+              right; simpa using hpar
+          refine ⟨out, hp.symm, hE, hlinks, ?_⟩
+          intro offs usAll hu
+          simp only [runSplitUnfiltered] at hu
+          cases hca : convertUnits (ue.1.rootOff :: ue.2.map (fun e => ue.1.base + e.off)) [ue] ras with
+          | error e => rw [hca] at hu; cases hu
+          | ok ua =>
+            rw [hca] at hu
+            simp only [Outcome.converted.injEq] at hu
+            obtain ⟨_, hua⟩ := hu
+            subst hua
+            have hall : ∀ e, e ∈ ue.2 →
+                (ue.1.rootOff :: ue.2.map (fun e => ue.1.base + e.off)).contains (ue.1.base + e.off) = true := by
+              intro e he
+              simp only [List.contains_cons, Bool.or_eq_true]
+              right; simpa using List.mem_map_of_mem (f := fun e => ue.1.base + e.off) he
+            have hlinksA : ua = [filterLinks (ue.1.rootOff :: ue.2.map (fun e => ue.1.base + e.off)) ue.1 [] ue.2] := by
+              have := convertUnits_links _ [ue] ras ua ?_ hca
+              · simpa using this
+              · intro ue' hue'
+                simp only [List.mem_singleton] at hue'
+                subst hue'
+                refine ⟨hdepth, ?_⟩
+                intro ep hep _ p hp'
+                obtain h1 | ⟨e', he', ho, _⟩ := withParents_parent ue'.2 [] ep.1 p (by
+                  have : ep = (ep.1, some p) := by rw [← hp']
+                  rw [← this]; exact hep)
+                · cases h1
+                · rw [ho]; exact hall e' he'
+            rw [hlinks, hlinksA]
+            simp only [List.map_cons, List.map_nil, List.cons.injEq, and_true, filterLinks]
+            rw [List.filter_map]
+            congr 1
+            rw [List.filter_filter]
+            apply List.filter_congr
+            intro ep hep
+            simp only [Function.comp]
+            rw [hids ep.1 (hwp ep hep), hall ep.1 (hwp ep hep)]
+            simp
+        · cases h
+    | err e => rw [hr] at h; cases h
+    | panic w => rw [hr] at h; cases h
+    | diverge => rw [hr] at h; cases h
+  | err e => rw [hb] at h; cases h
+  | panic w => rw [hb] at h; cases h
+  | diverge => rw [hb] at h; cases h
+
 /-! ## the tag tables regenerated from the Rust source -/
 
 /-- the extractor understood `has_die_back_edge` and the `read_entry` condition -/
@@ -584,7 +697,8 @@ theorem implicit_pointer_regression :
     run .debug exImplicitPointer = .converted [[15, 23]] [[(15, some 11), (23, some 11)]] := by decide
 
 /-- former finding C19-2 (repaired by 34014b9): the same with a `DW_OP_call4` inside a location-list
-entry whose range is inverted (`begin > end`), which the cooked `LocListIter` skips -/
+entry whose range is empty (`begin = end`), which the cooked `LocListIter` skips (and the
+conversion drops after converting its expression) -/
 def exSkippedLoc : List (UnitHdr × List Entry) :=
   [ (⟨0, 11, 20⟩,
       [ ⟨15, 1, false, 0x2e, false, [.loclist [(false, [.unitRef 23])]], true⟩,
@@ -622,5 +736,24 @@ theorem root_ref_regression :
     run .debug exRootRef [] = .converted [[23]] [[(23, some 11)]] := by decide
 
 example : rootReqs exRootRef [[.unitRef 15, .infoRef 999]] = [15, 999] := by decide
+
+/-- a split section of two units: the split compilation unit (`15` subprogram ⊃ `23` parameter,
+`31` variable) and a second unit whose required DIE `65` references `31` -/
+def exSplit : List (UnitHdr × List Entry) :=
+  [ (⟨0, 11, 28⟩,
+      [ ⟨15, 1, true, 0x2e, false, [], false⟩,
+        ⟨23, 2, false, 0x05, false, [], false⟩,
+        ⟨31, 1, false, 0x34, false, [], false⟩ ]),
+    (⟨50, 11, 12⟩, [ ⟨15, 1, false, 0x13, false, [.infoRef 31], true⟩ ]) ]
+
+/-- the filtered split conversion keeps `31` of the first unit (referenced from the second) and
+nothing of the second unit; seed C19-d (taking the last unit) would yield `65` instead -/
+example : runSplit .debug exSplit = .converted [[31, 65]] [[(31, some 11)]] := by decide
+example : runSplitUnfiltered exSplit = .converted [[15, 23, 31]] [[(15, some 11), (23, some 15), (31, some 11)]] := by
+  decide
+/-- recorded finding C19-4: the first unit references a DIE of the second by section offset — the
+reference resolves (the offset is reserved) but the DIE is never added: `write()` fails -/
+example : runSplit .debug [ (⟨0, 11, 12⟩, [ ⟨15, 1, false, 0x2e, false, [.infoRef 65], true⟩ ]),
+    (⟨50, 11, 12⟩, [ ⟨15, 1, false, 0x13, false, [], false⟩ ]) ] = .writeErr := by decide
 
 end Gimli.Props.C19
